@@ -538,6 +538,7 @@ pub struct Fired {
     pub interrupted: u64,
     pub chunked_calls: u64,
     pub budget: u64,
+    pub repositioned: u64,
 }
 
 pub struct Sim {
@@ -570,6 +571,10 @@ pub struct Sim {
     pub total_bytes: u64,
     /// "the storage dies": every stream call with seq >= this fails (crash of the medium)
     pub dead_from: Option<u64>,
+    /// "somebody else moved the shared file offset": before API call `.0` the stream's
+    /// position becomes `.1` (a second handle on the same open file was used in between)
+    pub reposition: Option<(u32, u64)>,
+    pos_override: Option<u64>,
 }
 
 pub type SimRef = Rc<RefCell<Sim>>;
@@ -598,6 +603,8 @@ impl Sim {
             total_ops: 0,
             total_bytes: 0,
             dead_from: None,
+            reposition: None,
+            pos_override: None,
         }
     }
 
@@ -625,6 +632,19 @@ impl Sim {
         self.api = api;
         self.ops_in_call = 0;
         self.bytes_in_call = 0;
+        if let Some((a, p)) = self.reposition {
+            if a == api {
+                self.pos_override = Some(p);
+                self.reposition = None;
+            }
+        }
+    }
+
+    /// Applied at the start of every stream call of a handle.
+    fn moved_position(&mut self) -> Option<u64> {
+        let p = self.pos_override.take()?;
+        self.fired.repositioned += 1;
+        Some(p)
     }
 
     fn take_fault(&mut self, seq: u64) -> Option<Fault> {
@@ -776,6 +796,9 @@ impl SimFile {
 impl Read for SimFile {
     fn read(&mut self, buf: &mut [u8]) -> io::Result<usize> {
         let mut s = self.sim.borrow_mut();
+        if let Some(p) = s.moved_position() {
+            self.pos = p;
+        }
         let fault = s.enter(OpKind::Read, self.pos, buf.len() as u64)?;
         if let Some(e) = s.maybe_interrupt(OpKind::Read, self.pos, buf.len() as u64) {
             return Err(e);
@@ -805,6 +828,9 @@ impl Read for SimFile {
 impl Write for SimFile {
     fn write(&mut self, buf: &[u8]) -> io::Result<usize> {
         let mut s = self.sim.borrow_mut();
+        if let Some(p) = s.moved_position() {
+            self.pos = p;
+        }
         let fault = s.enter(OpKind::Write, self.pos, buf.len() as u64)?;
         if let Some(e) = s.maybe_interrupt(OpKind::Write, self.pos, buf.len() as u64) {
             return Err(e);
@@ -832,6 +858,9 @@ impl Write for SimFile {
 
     fn flush(&mut self) -> io::Result<()> {
         let mut s = self.sim.borrow_mut();
+        if let Some(p) = s.moved_position() {
+            self.pos = p;
+        }
         s.enter(OpKind::Flush, self.pos, 0)?;
         s.log(OpKind::Flush, self.pos, 0, 0, 0);
         s.seq += 1;
@@ -842,6 +871,9 @@ impl Write for SimFile {
 impl Seek for SimFile {
     fn seek(&mut self, to: SeekFrom) -> io::Result<u64> {
         let mut s = self.sim.borrow_mut();
+        if let Some(p) = s.moved_position() {
+            self.pos = p;
+        }
         let (tag, arg) = match to {
             SeekFrom::Start(n) => (0u64, n),
             SeekFrom::Current(n) => (1, n as u64),
